@@ -1,4 +1,5 @@
 import CTV.Model.Witness
+import CTV.Model.WitnessSpec
 /-!
 # C19: the hand-written witness model follows the check sequences regenerated from witness.go
 
@@ -84,7 +85,9 @@ an error — is what the regenerated body of `Witness.Update` answers on the sam
 state, log ID, submitted body and proof. -/
 theorem update_tie_reply (env : Env Hash Sig CoSig) (db : Db Hash Sig) (id : LogId) (raw : Raw Hash Sig) (pf : List Hash) :
     code (update env db id raw pf).2 = ((genUpdate (facts env db id raw pf)).1, (genUpdate (facts env db id raw pf)).2.1) := by
-  unfold genUpdate Gen.witnessUpdate
+  unfold genUpdate
+  rw [Gen.witnessUpdate_eq_spec]
+  unfold Spec.witnessUpdate
   by_cases hk : env.known id = true
   · cases raw with
     | garbage =>
@@ -129,7 +132,9 @@ theorem update_tie_store (env : Env Hash Sig CoSig) (db : Db Hash Sig) (id : Log
     (update env db id (.sth n) pf).1 =
       if (genUpdate (facts env db id (.sth n) pf)).2.2 then db.set id n else db := by
   have hfix : Gen.witnessSignsBeforeCommit = true := rfl
-  unfold genUpdate Gen.witnessUpdate
+  unfold genUpdate
+  rw [Gen.witnessUpdate_eq_spec]
+  unfold Spec.witnessUpdate
   by_cases hk : env.known id = true
   · cases hp : parse env id (.sth n) with
     | error e => simp [update, facts, hk, hp, failed]
@@ -171,7 +176,8 @@ theorem getSTH_tie (env : Env Hash Sig CoSig) (db : Db Hash Sig) (id : LogId) :
         (match db id with
           | some r => (match parse env id (.sth r) with | .ok s => (env.cosign s).isNone | .error _ => false)
           | none => false) := by
-  unfold Gen.witnessGetSTH getSTH
+  rw [Gen.witnessGetSTH_eq_spec]
+  unfold Spec.witnessGetSTH getSTH
   cases hd : db id with
   | none => simp [code]
   | some r =>
@@ -193,7 +199,8 @@ theorem parse_tie (env : Env Hash Sig CoSig) (id : LogId) (s : Sth Hash Sig) :
     (k.2.1 = false → ∃ h, idh = some h ∧ parse env id (.sth s) = .ok { s with idField := some h }) := by
   intro idh k
   simp only [k, idh]
-  unfold Gen.witnessParse parse
+  rw [Gen.witnessParse_eq_spec]
+  unfold Spec.witnessParse parse
   by_cases hk : env.known id = true
   · cases hi : env.idOf id with
     | none => simp [hk, failed]
